@@ -124,7 +124,7 @@ pub fn run(ctx: &mut Ctx) {
     crate::props::run_regressions(ctx, "C03");
 
     ctx.layer("exhaustive");
-    let dsets: Vec<DS> = { let mut v = dsets_up_to(2, t.pick(6, 8)); v.extend(dsets_up_to(3, t.pick(4, 6))); v.extend(dsets_up_to(1, 6)); v };
+    let dsets: Vec<DS> = { let mut v = dsets_up_to(2, t.pick(6, 8)); v.extend(dsets_up_to(3, t.pick(4, 6))); v.extend(dsets_up_to(1, 6)); v.extend(dsets_up_to(4, t.pick(4, 5))); v.extend(dsets_up_to(5, t.pick(3, 4))); v.extend(dsets_up_to(6, 3)); v };
     let mut syms: Vec<DS> = vec![];
     let mut complete = true;
     for ds in &dsets {
@@ -132,7 +132,7 @@ pub fn run(ctx: &mut Ctx) {
         complete &= all;
         syms.extend(s);
     }
-    let note = format!("all branching assignments v <= 3 on all {} connected D-sets (dim 2 size <= {}, dim 3 size <= {}, dim 1 size <= 6){}", dsets.len(), t.pick(6, 8), t.pick(4, 6), if complete { "" } else { ", capped per D-set" });
+    let note = format!("all branching assignments v <= 3 on all {} connected D-sets (dim 2 size <= {}, dim 3 size <= {}, dim 1 size <= 6, dim 4 size <= {}, dim 5 size <= {}, dim 6 size <= 3){}", dsets.len(), t.pick(6, 8), t.pick(4, 6), t.pick(4, 5), t.pick(3, 4), if complete { "" } else { ", capped per D-set" });
     // fixed renumberings: reversal, rotation, one transposition
     let cases: Vec<Renum> = syms
         .iter()
@@ -194,6 +194,8 @@ pub fn run(ctx: &mut Ctx) {
     }
     ctx.run_prop(&SUB_RENUM, || (prop_oneof![random_symbol(2, 8..=40), random_symbol(3, 6..=40)], sw()).prop_map(|(ds, swaps)| Renum { ds, swaps }), n / 4);
     ctx.run_prop(&SUB_RENUM, || (prop_oneof![random_symbol(2, 100..=300), random_symbol(3, 100..=300)], sw()).prop_map(|(ds, swaps)| Renum { ds, swaps }), n / 100);
+    // higher dimensions
+    ctx.run_prop(&SUB_RENUM, || (prop_oneof![random_symbol(4, 4..=40), random_symbol(5, 4..=32), random_symbol(6, 4..=24), random_symbol(4, 60..=130)], sw()).prop_map(|(ds, swaps)| Renum { ds, swaps }), n / 4);
     // branching numbers beyond 32 bits (legal usize values; congruent ones modulo 2^32 must still be told apart)
     {
         const BIG: [usize; 9] = [1, 2, 3, 1 << 31, 1 << 32, (1 << 32) + 1, (1 << 32) + 2, (1 << 33) + 1, (1 << 40) + 3];
